@@ -13,6 +13,7 @@ Require Import Cadence.Model.Sock.
 Require Import Cadence.Proofs.WriterBase.
 Require Import Cadence.Proofs.WriterThms.
 Require Import Cadence.Proofs.StatsProofs.
+Require Import Cadence.Proofs.SockProofs.
 
 (* an unbuffered sink: exactly one send per emit, payload = the metric's bytes, nothing added or
    removed, destination as configured; the result is the number of bytes (Ok) or the socket's error *)
@@ -86,8 +87,44 @@ Proof.
   intros lg0 s. destruct (updates_totals (map attempt_of_log lg0)) as (A & B & C & D). auto.
 Qed.
 
+(* a whole scenario on an unbuffered socket sink (what the correspondence check drives on real local
+   sockets): for every script of emits and flushes while the listener goes away and comes back, the
+   wire carries exactly the metrics emitted while the listener was there - their bytes unchanged, one
+   datagram each, in order; every emit answers Ok(len) exactly when its datagram went out (always,
+   behind a queuing sink); the statistics are the updates of these attempts *)
+Theorem c13_scenario_unbuffered : forall queued ops,
+  let es := sc_emits true ops in
+  sc_unbuffered queued ops =
+  (sc_answers queued true ops, map fst (filter snd es), updates stats0 (map att_of es)).
+Proof. exact sc_unbuffered_spec. Qed.
+
+(* ... on a buffered socket sink, whatever the listener does and whenever: every datagram that
+   reaches the wire - those of the final drop included - is a non-empty run of whole lines
+   "metric\n" within the capacity (512 unless configured), or one oversized metric alone *)
+Theorem c13_scenario_buffered : forall co queued ops rs dg st,
+  sc_buffered co queued ops = (rs, dg, st) ->
+  let c := match co with Some n => n | None => 512 end in
+  length rs = length ops /\
+  Forall (fun d => (exists ms : list str, ms <> [] /\ d = concat (map (fun m => m ++ [10%N]) ms) /\ length d <= c) \/
+                   (c < length d + 1)) dg.
+Proof. exact sc_buffered_frames. Qed.
+
 (* non-vacuity *)
 Example c13_witness :
   let '(rs, s) := run_from (sink_init (Some 16) []) 0 [Emit [102;111;111]; Emit [98;97;114]; Emit [98;97;122;122;122;122;122;122;122;122;122]; Flush]%N in
   map sd_payload (datagrams 7%N (lg s)) = [[102;111;111;10;98;97;114;10]; [98;97;122;122;122;122;122;122;122;122;122;10]]%N.
 Proof. vm_compute. reflexivity. Qed.
+
+(* a scenario with an outage: the refused metric and flush answer with the error, the metric
+   emitted before the outage stays buffered and leaves with the final drop, the oversized one
+   goes out alone at once *)
+Example c13_scenario_witness :
+  sc_buffered (Some 8) false [SEmit [97;98]; SDown; SEmit [99;100;101;102;103]; SFlush; SUp; SEmit [104];
+                              SEmit [105;106;107;108;109;110;111;112;113]]%N
+  = ([SK 2; SNone; SE; SE; SNone; SK 1; SK 9],
+     [[105;106;107;108;109;110;111;112;113]; [97;98;10;104;10]],
+     {| bytes_sent := 9; packets_sent := 1; bytes_dropped := 6; packets_dropped := 2 |})%N /\
+  sc_unbuffered false [SEmit [97;98]; SDown; SEmit [99]; SFlush; SUp; SEmit [104]]%N
+  = ([SK 2; SNone; SE; SK 0; SNone; SK 1], [[97;98]; [104]],
+     {| bytes_sent := 3; packets_sent := 2; bytes_dropped := 1; packets_dropped := 1 |})%N.
+Proof. vm_compute. split; reflexivity. Qed.
